@@ -794,7 +794,8 @@ impl<'a> Searcher<'a> {
                 let git_repository = match git_repository {
                     Some(repo) => Some(repo),
                     None if apply_gitignore => {
-                        repo = Repository::open(&path).ok();
+                        // a queued directory may lie deep inside a repository found below the root
+                        repo = Repository::discover(&path).ok();
                         repo.as_ref()
                     },
                     _ => None,
